@@ -528,7 +528,7 @@ impl Property for C14 {
                                 tamper: None,
                                 links: vec![],
                             };
-                            w.links.push(LinkFile { step: sname, filed_under: k, body: Body::Sub { world: Box::new(inner), placement: Placement::Proper } });
+                            w.links.push(LinkFile { step: sname, filed_under: k, name_field: None, body: Body::Sub { world: Box::new(inner), placement: Placement::Proper } });
                         }
                     }
                     Twist::LayoutAsLink => {
